@@ -131,10 +131,11 @@ package websocket
 //@   loop 5 invariant h.roomManager != nil && h.config != nil && ErrRoomFull != nil
 //@   loop 6 invariant h.roomManager != nil && h.config != nil && ErrRoomFull != nil && heldw(addr(h.connMu)) && len(h.connections) <= atlock(len(h.connections))
 
-// Removing a connection from every room only ever shrinks connection sets (trusted summary: the
-// function ranges over the room table under its read lock and calls Room.Remove on each room).
+// Removing a connection from every room only ever shrinks connection sets (summary, not checked
+// against the body: the function ranges over the room table under its read lock and calls
+// Room.Remove on each room). The body is checked for the lock discipline and the frame.
 //@ func (*RoomManager).RemoveConnectionFromAllRooms
-//@   trusted
 //@   requires rm != nil
 //@   modifies allfields(RoomManager.rooms), allmaps(map[string]*Room), allfields(Room.connections), allfields(Room.maxConnections), allmaps(map[*Connection]bool)
-//@   ensures forall(m, map[*Connection]bool, len(m) <= old(len(m)))
+//@   summary forall(m, map[*Connection]bool, len(m) <= old(len(m)))
+//@   loop 1 invariant held(addr(rm.mu))
